@@ -182,6 +182,14 @@ def gen_together(r, ncases, parallel):
             ops.append("su.putrpm fan=tp data=0:x0000000000000000,100:x408f400000000000,255:x40a3880000000000")
             order = order + ["tp"]
             delays += ",0"
+        if r.chance(0.25):
+            # one more fan whose stored RPM curve is present but EMPTY (an interrupted earlier run): its start fails (or
+            # whatever it does instead) without ever analysing next to the others (seed C16i: it was re-measured outside
+            # the lock)
+            ops.append(f"su.fan fan=te kind=hwmon cfgmap=0 minmax=0 hasrpm=1 ns=0 quant=0 spinat={r.range(5, 90)} mapstyle=identity")
+            ops.append("su.putrpm fan=te data=-")
+            order = ["te"] + order
+            delays = "0," + delays
         ops.append(f"su.together fans={','.join(order)} delays_us={delays}")
         k = r.below(6)
         if k == 5 and n >= 2:
